@@ -141,13 +141,16 @@ class Runner:
     def overlay(self, variant, wb):
         m = core.shim_overlay()
         names = None
-        d = os.path.join(core.HARNESS, "inpkg", self.cfg.inpkg)
+        pkg = variant.get("pkg", self.cfg.pkg)
+        inpkg = variant.get("inpkg", variant.get("pkg", self.cfg.inpkg))
+        wb_files = variant.get("wb_files", self.cfg.wb_files)
+        d = os.path.join(core.HARNESS, "inpkg", inpkg)
         all_files = sorted(f for f in os.listdir(d) if f.endswith(".go"))
         files = variant.get("files", self.cfg.files)
-        names = [f for f in all_files if (files is None or f in files or f in self.cfg.wb_files)]
+        names = [f for f in all_files if (files is None or f in files or f in wb_files)]
         if not wb:
-            names = [f for f in names if f not in self.cfg.wb_files]
-        m.update(core.inpkg_overlay(self.cfg.pkg, names, self.cfg.inpkg))
+            names = [f for f in names if f not in wb_files]
+        m.update(core.inpkg_overlay(pkg, names, inpkg))
         m.update(self.cfg.extra_overlay())
         m.update(variant.get("overlay", {}))
         if "overlay_fn" in variant:
@@ -162,23 +165,26 @@ class Runner:
                    VERIF_SHARDS=self.cfg.shards, VERIF_TIER=self.tier)
         if replay:
             env["VERIF_REPLAY"] = replay
-        rc, out, dt = core.go_test(self.work, self.overlay(variant, self.wb), self.cfg.pkg, self.cfg.run, env,
+        pkg, run = variant.get("pkg", self.cfg.pkg), variant.get("run", self.cfg.run)
+        rc, out, dt = core.go_test(self.work, self.overlay(variant, self.wb), pkg, run, env,
                                    tags=variant.get("tags", self.cfg.tags), timeout=self.cfg.timeout)
-        if rc != 0 and self.wb and self.cfg.wb_files and ("[build failed]" in out or "[setup failed]" in out):
+        if rc != 0 and self.wb and variant.get("wb_files", self.cfg.wb_files) and ("[build failed]" in out or "[setup failed]" in out):
             # broken L2 tie: the white-box file no longer compiles against the tree; L1 only
             self.build_notes.append("white-box harness does not build against this tree; L1 (exported API) only:\n" + out[-1500:])
             self.wb = False
-            rc, out, dt = core.go_test(self.work, self.overlay(variant, False), self.cfg.pkg, self.cfg.run, env,
+            rc, out, dt = core.go_test(self.work, self.overlay(variant, False), pkg, run, env,
                                        tags=variant.get("tags", self.cfg.tags), timeout=self.cfg.timeout)
         return rc, out
 
-    def drive(self, outdir):
+    def drive(self, outdir, variant=None):
         """run the Lean driver on every ops-*.txt in outdir"""
+        component = (variant or {}).get("component", self.cfg.component)
+        dargs = (variant or {}).get("driver_args", self.cfg.driver_args)
         shards = sorted(f[4:-4] for f in os.listdir(outdir) if f.startswith("ops-") and f.endswith(".txt"))
 
         def one(s):
-            return core.run_driver(self.cfg.component, os.path.join(outdir, "ops-%s.txt" % s),
-                                   os.path.join(outdir, "model-%s.txt" % s), self.cfg.driver_args)
+            return core.run_driver(component, os.path.join(outdir, "ops-%s.txt" % s),
+                                   os.path.join(outdir, "model-%s.txt" % s), dargs)
         with cf.ThreadPoolExecutor(16) as ex:
             res = list(ex.map(one, shards))
         errs = ["driver shard %s rc=%d %s" % (s, rc, err[-500:]) for s, (rc, err) in zip(shards, res) if rc != 0]
@@ -189,7 +195,7 @@ class Runner:
         if rc != 0:
             oc.errors.append("go harness failed (rc=%d):\n%s" % (rc, out[-3000:]))
             return
-        shards, errs = self.drive(outdir)
+        shards, errs = self.drive(outdir, variant)
         oc.errors += errs
         for s in shards:
             compare_shard(self.cfg, os.path.join(outdir, "ops-%s.txt" % s), os.path.join(outdir, "impl-%s.txt" % s),
@@ -209,7 +215,7 @@ class Runner:
         if rc != 0:
             oc.errors.append("replay harness failed:\n" + out[-2000:])
             return oc, d
-        shards, errs = self.drive(d)
+        shards, errs = self.drive(d, variant)
         oc.errors += errs
         for s in shards:
             compare_shard(self.cfg, os.path.join(d, "ops-%s.txt" % s), os.path.join(d, "impl-%s.txt" % s),
